@@ -2,8 +2,8 @@ SPECIFICATION Spec
 CONSTANTS
   Mode = "member"
   MaxLen = 3
-  RepChoices = {{}, {"child", "ghost"}, {"map"}, {"parent", "child"}}
-  OwnChoices = {{}, {"child"}, {"map", "ghost"}, {"parent"}, {"map", "child"}}
+  RepChoices = {{}, {"child", "ghost"}, {"parent", "child"}}
+  OwnChoices = {{}, {"child"}, {"map", "ghost"}, {"parent"}}
   TNames = {"x"}
 INVARIANTS FoldOk Emit
 CHECK_DEADLOCK FALSE
